@@ -23,6 +23,9 @@ CONSTANTS
   FlushEntry = TRUE
   UnmapOnDrop = TRUE
   Linear = TRUE
+  AllowNested = FALSE
+  OthersCall = "never"
+  KeepPagesWritable = FALSE
   UserCalls = FALSE
   MaxUserCalls = 0
   InstallKinds = {"jump", "bool"}
